@@ -97,6 +97,27 @@ func execSupervise(input string) string {
 	for i := 0; i < n; i++ {
 		src.events = append(src.events, fmt.Sprintf("e%d", i))
 	}
+	// the process has already run another executor to completion and shut it down (a test binary, an embedding application)
+	{
+		prev := &sourceScript{stopAt: -1, events: []string{"p0"}, quiet: true}
+		currentSource = prev
+		prun := nextRunID()
+		psp := &nodeSpec{idx: 0, id: fmt.Sprintf("r%d_0", prun), kind: "sync", wPass: 100}
+		setScenario([]*nodeSpec{psp})
+		pex, err := executor.New(executor.WithConfig(config.Config{ApplicationName: "verif", MetricsPrefix: "verif", ShutdownTimeOut: 2,
+			Source: &node.SourceConfig{Name: "vsource", ID: fmt.Sprintf("r%d_src", prun)},
+			Nodes:  []*node.Config{{ID: psp.id, Name: "vsync", Workers: 1, BufferSize: 1}}}))
+		if err == nil {
+			pex.Shutdown()
+			pdone := make(chan struct{})
+			go func() { pex.Execute(); close(pdone) }()
+			select {
+			case <-pdone:
+			case <-time.After(5 * time.Second):
+			}
+		}
+		clearScenario([]*nodeSpec{psp})
+	}
 	currentSource = src
 	run := nextRunID()
 	sp := &nodeSpec{idx: 0, id: fmt.Sprintf("r%d_0", run), kind: "sync", wPass: 100, latency: time.Duration(latUs) * time.Microsecond}
